@@ -148,7 +148,13 @@ func runC18Second(c c18Second) (string, error) {
 	for dl := time.Now().Add(3 * time.Second); !won && time.Now().Before(dl); {
 		time.Sleep(2 * time.Millisecond)
 		if c18IsDirect(c.kind) {
-			_, err := s.EmitSync(c18Row(2, -1)) // filtered by WHERE: no sink runs if it is admitted
+			// filtered by WHERE: no sink runs if it is admitted. The probe itself must not hang the harness: an
+			// EmitSync that waits behind the Stop in progress is abandoned and the case is not judged (np)
+			var err error
+			if !callWithin(500*time.Millisecond, func() { _, err = s.EmitSync(c18Row(2, -1)) }) {
+				t.add("pb")
+				break
+			}
 			won = err != nil && strings.Contains(err.Error(), "stopped")
 		} else if id := atomic.LoadUint64(&g1); id != 0 {
 			won = c18InJoin(id)
